@@ -11,20 +11,30 @@ CONFIG = {
     'protected_classes': ['plumpy.futures.CancellableAction', 'asyncio.Future', 'kiwipy.Future'],
     # the action may be aborted by a BaseException-only class (KeyboardInterrupt, CancelledError): at most once must still hold
     'user_raises_base_exception': True,
+    'class_invariants': {'plumpy.futures.CancellableAction': 'wf_action'},
 }
+
+
+@spec
+def wf_action(a):
+    """class invariant of CancellableAction: while it has not run it holds the callable it was made for (an object: a partial, a
+    closure, a bound method); run() drops it when it completes the future"""
+    return implies(a._state == 'PENDING', is_heap_obj(a._action))
 
 
 @contract('plumpy.futures.CancellableAction.__init__', props=['C20', 'C04'])
 def ca_init(self, action, cookie=None):
+    requires(is_heap_obj(action))
     modifies(fields(self))
     raises_nothing()
     ensures('payload', self._action is action and self._cookie is cookie and self._state == 'PENDING')
+    ensures('invariant', wf_action(self))
 
 
 @contract('plumpy.futures.CancellableAction.run', props=['C20', 'C04', 'C05'])
 def ca_run(self, *args, **kwargs):
-    requires(is_heap_obj(self._action) and not is_function(self._action))
-    modifies(all_heap)
+    requires(wf_action(self))
+    modifies(user_effects, fields(self))
     ev = calls()[len(calls()) - 1]
     ensures('ran_once', old(self._state) == 'PENDING' and len(calls()) == old(len(calls())) + 1
             and take(calls(), old(len(calls()))) == old(calls()))
